@@ -15,14 +15,12 @@ if __name__ == '__main__':
 import vf
 
 PROP = 'C13'
-MODES_Q = ['gen/MC_C13wrap_q.cfg', 'gen/MC_C13deep_q.cfg', 'gen/MC_C13fn_q.cfg', 'gen/MC_C13slice_q.cfg',
-           'gen/MC_C13cmp_q.cfg', 'gen/MC_C13ident_q.cfg']
-MODES_T = ['gen/MC_C13wrap_t.cfg', 'gen/MC_C13deep_t.cfg', 'gen/MC_C13fn_t.cfg', 'gen/MC_C13slice_t.cfg',
-           'gen/MC_C13cmp_t.cfg', 'gen/MC_C13ident_t.cfg']
-CFG = {'quick': MODES_Q, 'thorough': MODES_T}
+CFG = {'quick': ['gen/MC_C13wrap_q.cfg', 'gen/MC_C13deep_q.cfg', 'gen/MC_C13fn_q.cfg', 'gen/MC_C13slice_q.cfg',
+                 'gen/MC_C13cmp.cfg', 'gen/MC_C13ident.cfg'],
+       'thorough': ['gen/MC_C13wrap_q.cfg', 'gen/MC_C13deep_q.cfg', 'gen/MC_C13deep_t.cfg', 'gen/MC_C13mix_t.cfg', 'gen/MC_C13fn_t.cfg',
+                    'gen/MC_C13slice_t.cfg', 'gen/MC_C13cmp.cfg', 'gen/MC_C13ident.cfg']}
 DOCS_CFG = 'gen/MC_C13docs.cfg'
-RT_CFG = 'gen/MC_C13rt.cfg'          # round-trip sample: cases with their expression trees
-VALID = ('gen/MC_C13valid', 'gen/MC_C13valid.cfg')
+RT_CFG = {'quick': 'gen/MC_C13rt_q.cfg', 'thorough': 'gen/MC_C13rt_t.cfg'}   # wrap cases emitted with their trees
 
 
 # ------------------------------------------------------------------------------------------------
@@ -526,6 +524,126 @@ def mkcorpus(src='/repo/test/jmespath/input/compliance', out=None):
         fh.write('\n    [] '.join(parts))
         fh.write('\n=============================================================================\n')
     return len(rows), skipped, nsyntax, nsyntax_rej
+
+
+# ------------------------------------------------------------------------------------------------
+# The check
+
+def expr_of(case):
+    try:
+        return ''.join(chr(c) for c in case.get('e', []))
+    except Exception:
+        return '?'
+
+
+def sig(r):
+    c = r['case']
+    s = {'expr': expr_of(c) if isinstance(c, dict) else str(c)[:200]}
+    for k in ('flavour', 'what', 'doc'):
+        if k in r:
+            s[k] = r[k]
+    return s
+
+
+def docs_file():
+    return vf.tlc_gen('gen/MC_C13', DOCS_CFG, timeout=600)[0]
+
+
+def gens(tier):
+    return [vf.tlc_gen('gen/MC_C13', c, timeout=3000) for c in CFG[tier]]
+
+
+def validate_spec(tier, paths):
+    """Spec validation (an InfraError, never a VIOLATION, when it fails): (1) the evaluator reproduces the
+    compliance corpus, (2) parse(Show(tree)) = tree for every generated case that carries its tree."""
+    vpath, vmeta = vf.tlc_gen('gen/MC_C13valid', 'gen/MC_C13valid.cfg', workers=4, timeout=1200)
+    bad = [json.loads(l) for l in open(vpath)]
+    mism = [b for b in bad if b.get('k') == 'mismatch']
+    if mism:
+        raise vf.InfraError('spec/Jmespath.tla disagrees with the compliance corpus on %d cases, e.g. %s' % (len(mism), json.dumps(mism[:3])[:1500]))
+    ncorpus = vmeta.get('distinct', 1) - 1
+    rt_path, rt_meta = vf.tlc_gen('gen/MC_C13', RT_CFG[tier], timeout=3000)
+    nrt = 0
+    for path in [rt_path] + list(paths):
+        with open(path) as fh:
+            for line in fh:
+                if '"ast"' not in line:
+                    continue
+                c = json.loads(line)
+                nrt += 1
+                text = expr_of(c)
+                try:
+                    got = canon_ast(parse_expr(text))
+                except (JmesSyntaxError, ValueError) as ex:
+                    got = ['reference parser rejects: %s' % ex]
+                if got != canon_ast(c['ast']):
+                    raise vf.InfraError('un-parser round trip failed: Show(tree) = %r parses as %s, tree is %s'
+                                        % (text, json.dumps(got)[:600], json.dumps(c['ast'])[:600]))
+    return dict(corpus_cases=ncorpus, corpus_dontcare=len(bad) - len(mism), roundtrip_cases=nrt, rt_meta=rt_meta, valid_meta=vmeta)
+
+
+def setup():
+    vf.build('c13', ['c13.cpp'])
+    docs_file()
+    g = gens('quick')
+    validate_spec('quick', [p for p, _ in g])
+
+
+def run(tier):
+    rep = vf.Report(PROP, tier)
+    binary = vf.build('c13', ['c13.cpp'])
+    docs = docs_file()
+    g = gens(tier)
+    v = validate_spec(tier, [p for p, _ in g])
+    rep.add_tlc(v['rt_meta']); rep.add_tlc(v['valid_meta'])
+    totals = vf.g_replay(rep, binary, g, sig, args=['--docs', docs])
+    cov = rep.coverage
+    cov['traces_validated_against_impl'] = totals.get('cases', 0)
+    cov['evaluations'] = totals.get('checks', 0)
+    cov['distinct_nontrivial'] = totals.get('nontrivial', 0)
+    cov['dontcare_evaluations'] = totals.get('dontcare', 0)
+    cov['exhaustive'] = True
+    cov['spec_validation'] = {k: v[k] for k in ('corpus_cases', 'corpus_dontcare', 'roundtrip_cases')}
+    cov['rule'] = ('one case = one distinct expression tree (rendered by the spec un-parser) evaluated against every document of its mode; '
+                   '(wrap/deep/mix) all trees grown from {@, a, b, literals} by 2-3 layers of wrapping with every node kind - postfixes appended into '
+                   'open projections, parentheses, pipe, ||, &&, !, six comparators, multi-select list/hash, 26 built-ins (+ unknown name) with the tree '
+                   'as argument or expression-type, placement as projection right-hand side / filter condition - over sibling alphabets core/mid/full '
+                   'of spec/gen/MC_C13.tla, restricted to trees whose string reading is unambiguous (Jmespath!Renderable); (fn) every function x every '
+                   'argument tuple over an 18-value typed alphabet for 0-2 arguments (7-value alphabet for 3): well-typed, ill-typed, wrong arity, unknown '
+                   'function; (slice) every [a:b:c] with a,b,c absent or in -R..R, R = 3 | 5, and indexes, over arrays of length 0-5 and non-arrays; (cmp) all '
+                   'comparators, &&, ||, ! over all pairs of 14 values of every type; (ident) quoted / escaped / non-ASCII identifiers, hash keys, literals, '
+                   'raw strings. 15 documents incl. empty containers, nulls, mixed arrays, nested arrays, sort ties, non-ASCII and quoted keys. '
+                   'evaluations = (case, document, flavour json|ojson) x 4 entry points; distinct_nontrivial = evaluations with a non-null predicted value or a '
+                   'predicted error')
+    cov['bounds'] = {c: open(os.path.join(vf.SPEC, c)).read().split('CONSTANTS')[1].split('KnownDeviations')[0].split() for c in CFG[tier]}
+    kd = open(os.path.join(vf.SPEC, CFG[tier][0])).read().split('KnownDeviations =')[1].strip()
+    cov['known_deviations_excluded'] = kd
+    cov['samples'] = vf.sample_lines(g[0][0], 2) + vf.sample_lines(g[2][0], 1)
+    rep.assumptions += [
+        'numbers are small integers; floating-point results (avg), to_string of anything but strings and booleans, to_number of strings that are not canonical integers are dont-care',
+        'the enumeration order of object members is unspecified: order-dependent results are accepted in ascending or descending key order for json, verdict only for ojson',
+        'an error is always acceptable for an expression that contains an unknown function, a wrong arity, a zero slice step or merge()/not_null() without arguments but does not evaluate it',
+        'a value or an error is acceptable when || / && decides on the left operand and the right operand would fail (the specification does not say the right side is skipped)',
+        'ordering comparators on two strings, contains(string, non-string), max_by/min_by ties between different elements, expression-types passed for "any" parameters, to_array(null) are dont-care',
+        'expressions whose reading the grammar leaves open are not generated: "!" before a dotted/indexed expression, chained comparators, a filter inside the right-hand side of a filter projection, postfixes after a leading ".[..]"/".{..}" of a right-hand side, backslashes in raw strings, empty quoted identifiers',
+        'cases that hit the suspected defects listed in notes/C13.md are excluded while the names are in KnownDeviations of the generator configs: ' + kd]
+    return rep.finish(dict(harness='c13', docs=docs))
+
+
+def replay(path):
+    d = json.load(open(path))
+    binary = vf.build('c13', ['c13.cpp'])
+    recs = vf.run_one(binary, d['case'], args=['--docs', docs_file()])
+    bad = [r for r in recs if r.get('k') != 'stat']
+    for r in bad:
+        print(json.dumps({k: v for k, v in r.items() if k != 'case'})[:1500])
+    print('expression=%s' % (expr_of(d['case']) if isinstance(d['case'], dict) else d['case']))
+    print('case=%s' % json.dumps(d['case'])[:1500])
+    if bad:
+        print('VIOLATION property=%s replay=%s' % (PROP, path))
+        return 1
+    print('no mismatch on this tree')
+    return 0
 
 
 if __name__ == '__main__':
